@@ -1,6 +1,25 @@
 """Reference encodings of a value in the non-BER syntaxes (UPER, OER, XER) with their variant families."""
 
 
+def ext_seq_nodes(mod, t, out=None, seen=None, depth=0):
+    """extensible SEQUENCE nodes reachable from type t"""
+    out = [] if out is None else out
+    seen = set() if seen is None else seen
+    rt = mod.resolve(t)
+    if id(rt) in seen or depth > 12:
+        return out
+    seen.add(id(rt))
+    k = rt.kind
+    if k in ("SEQUENCE", "SET", "CHOICE"):
+        if k == "SEQUENCE" and rt.ext is not None:
+            out.append(rt)
+        for c in rt.all_comps():
+            ext_seq_nodes(mod, c.type, out, seen, depth + 1)
+    elif k in ("SEQUENCE OF", "SET OF"):
+        ext_seq_nodes(mod, rt.elem, out, seen, depth + 1)
+    return out
+
+
 def reference_encodings(mod, t, v, rng, n):
     out = []
     try:
@@ -8,18 +27,26 @@ def reference_encodings(mod, t, v, rng, n):
         out += xer.variants(mod, t, v, rng, n)
     except ImportError:
         pass
-    try:
-        from ..asn import uper
-        b = uper.encode(mod, t, v)
-        if b is not None:
-            out.append(("UPER", "ref", b))
-    except ImportError:
-        pass
-    try:
-        from ..asn import oer
-        b = oer.encode(mod, t, v)
-        if b is not None:
-            out.append(("OER", "ref", b))
-    except ImportError:
-        pass
+    from ..asn import uper, oer
+    b = uper.encode(mod, t, v)
+    if b is not None:
+        out.append(("UPER", "ref", b))
+    o = oer.encode(mod, t, v)
+    if o is not None:
+        out.append(("OER", "ref", o))
+    # the same value as sent by a peer that knows a later version of the type: unknown extension additions at the end
+    nodes = ext_seq_nodes(mod, t)
+    if nodes and (b is not None or o is not None):
+        for _ in range(min(n, 2)):
+            extra = {id(x): rng.choice([1, 1, 2, 3, 7]) for x in nodes if rng.random() < 0.7}
+            if not extra:
+                continue
+            if b is not None:
+                b2 = uper.encode(mod, t, v, extra)
+                if b2 is not None and b2 != b:
+                    out.append(("UPER", "v2-sender", b2))
+            if o is not None:
+                o2 = oer.encode(mod, t, v, extra)
+                if o2 is not None and o2 != o:
+                    out.append(("OER", "v2-sender", o2))
     return out
